@@ -2,6 +2,7 @@
 This is a module to be used as a reference for building other modules
 """
 import numpy as np
+import numba
 from numba.typed import List
 import scipy.linalg
 import scipy.stats
@@ -1029,7 +1030,7 @@ def preprocess_multi_token_sequences(
     if masking is None:
         full_sequence = List()
         for set_sequence in token_sequences:
-            result_sequences = List()
+            result_sequences = List.empty_list(numba.types.int32[::1])
             for sequence in set_sequence:
                 result_sequences.append(
                     np.array(
@@ -1049,7 +1050,7 @@ def preprocess_multi_token_sequences(
 
         full_sequence = List()
         for set_sequence in token_sequences:
-            result_sequences = List()
+            result_sequences = List.empty_list(numba.types.int32[::1])
             for sequence in set_sequence:
                 result_sequences.append(
                     np.array(
